@@ -1094,6 +1094,8 @@ class Client():
         Service Rx on connection and parse
         """
         self.connector.serviceReceives()
+        if not self.waited:  # nothing asked so nothing received can be a response
+            self.connector.clearRxbs()
         if self.waited:
             try:
                 if (self.connector.cutoff and not self.connector.reconnectable and
